@@ -358,9 +358,11 @@ def run(ctx):
         elif c["what"] == "shape" and c["k"] == "off":
             gen["off"].append(c)
         elif c["what"] == "shape" and (max(c["n"], c["m"]) >= 255 or
-                                       (c["m"] == 0 and c["n"] == 2 and c["c"] == 0 and c["f"] == 0)):
+                                       (c["m"] == 0 and c["n"] == 2 and c["c"] == 0 and c["f"] == 0) or
+                                       (c["k"].endswith("z") and c["m"] == 1 and c["c"] == 0 and c["f"] == 0)):
             # counts at the 8-bit carry, and the structural variants "empty but non-nil" (m = 0) next to nil
-            # (v = 1) rule sets / sequences / rows, each followed by more data: realised in every run
+            # (v = 1) rule sets / sequences / rows, class definitions with explicit class-0 entries (kinds ...z),
+            # each followed by more data: realised in every run
             gen["boundary"].append(c)
         else:
             gen[c["what"]].append(c)
@@ -374,7 +376,9 @@ def run(ctx):
         "always_realised": "%d shapes with counts 255/256/257 or empty-but-non-nil next to nil parts (each followed by a second subtable and a second lookup), %d reader-geometry lookup lists (40/100/300 lookups behind 6 "
                            "paddings; 255/256/257 lookups; 2/255/256/257/509/510/511/600 subtables), every script and language "
                            "tag of the built-in tables, lists with 255/256/257(/300) language systems, features, feature "
-                           "lookups, optional features, coverage/classdef with 255/256/257 glyphs or ranges"
+                           "lookups, optional features, coverage/classdef with 255/256/257 glyphs or ranges; degenerate "
+                           "populations (explicit class-0 entries, all-zero tables, nil vs empty, false set members, glyph 0 / "
+                           "65535) of classdef.Table, coverage.Set, GDEF and class-based subtables"
                            % (len(gen["boundary"]), len(gen["geom"])),
         "shapes": "%d subtable shapes, %d GDEF, %d script/feature list shapes, %d coverage and %d classdef run structures"
                   % (len(gen["shape"]) + len(gen["boundary"]) + len(gen["huge"]) + len(gen["off"]), len(gen["gdef"]), len(gen["lists"]),
@@ -550,8 +554,9 @@ def _replay_cov(ctx, c):
     v = vlib.read_ndjson(cout)[0]
     if v["ok"]:
         raise vlib.Infra("coverage/classdef disagreement did not reproduce in isolation (case %s)" % c.get("id"))
-    comp = {"cov": "coverage", "cdef": "classdef", "dense": "classdef"}[c["what"]]
-    inp = {k: c[k] for k in ("glyphs", "pairs", "a", "b", "span", "representable") if k in c and c[k] not in ([], None)}
+    comp = {"cov": "coverage", "cdef": "classdef", "dense": "classdef", "cdefdeg": "classdef", "setdeg": "coverage"}[c["what"]]
+    inp = {k: c[k] for k in ("glyphs", "pairs", "a", "b", "span", "representable", "keys", "falses", "isnil")
+           if k in c and c[k] not in ([], None)}
     what = "%s table: %s. Input %s; allowed formats %s" % (comp, v["why"][:600], json.dumps(inp)[:400], c.get("allowed"))
     ctx.violation(what, sig={"kind": comp, "what": c["what"], "why": re.sub(r"\d+", "N", v["why"])[:80]},
                   case={"mode": "cov", "case": c})
